@@ -75,6 +75,119 @@ pub fn rich_document(rng: &mut Rng, per_object: usize, with_errors: bool) -> (Ob
     (root, d.ledger)
 }
 
+/// Two to three directories define components of the SAME names on different base classes (a widget, a layout, an
+/// action, another component); each directory has forms using them.  The real CLI translates all forms in one
+/// invocation, in several argument orders, and each form alone: every output file must have the same bytes (or be
+/// absent) in all runs.
+fn cross_document_order(seed: u64, k: u64) -> Sexp {
+    use std::collections::BTreeMap;
+    let mut rng = Rng::fork(seed, "c08-order", k);
+    let bin = env::cli_binary();
+    let dir = match tempfile::Builder::new().prefix("qv-c08-").tempdir() {
+        Ok(d) => d,
+        Err(e) => return node("fail", vec![st(format!("tempdir: {e}"))]),
+    };
+    let bases = ["QGroupBox", "QFrame", "QVBoxLayout", "QHBoxLayout", "QAction", "QLabel", "QPushButton", "QWidget"];
+    let names = ["Box", "Panel", "Item"];
+    let ndirs = 2 + rng.below(2);
+    let mut forms: Vec<String> = vec![];
+    for d in 0..ndirs {
+        let dn = format!("d{d}");
+        std::fs::create_dir_all(dir.path().join(&dn)).unwrap();
+        let mut used = vec![];
+        for n in names.iter().take(1 + rng.below(3)) {
+            let base = *rng.pick(&bases);
+            std::fs::write(dir.path().join(&dn).join(format!("{n}.qml")), format!("import qmluic.QtWidgets\n\n{base} {{\n}}\n")).unwrap();
+            used.push((*n, base));
+        }
+        for f in 0..(1 + rng.below(2)) {
+            let mut t = String::from("import qmluic.QtWidgets\n\nQDialog {\n");
+            for (n, base) in &used {
+                // a child below the component where its base allows one
+                let child = if base.ends_with("Layout") || *base == "QGroupBox" || *base == "QFrame" || *base == "QWidget" { " QLabel { text: \"x\" } " } else { "" };
+                t.push_str(&format!("    {n} {{{child}}}\n"));
+            }
+            t.push_str("}\n");
+            let rel = format!("{dn}/Form{f}.qml");
+            std::fs::write(dir.path().join(&rel), t).unwrap();
+            forms.push(rel);
+        }
+    }
+    let run = |order: &[String]| -> BTreeMap<String, Vec<u8>> {
+        // fresh copy of the outputs: remove what an earlier run wrote
+        for d in 0..ndirs {
+            if let Ok(rd) = std::fs::read_dir(dir.path().join(format!("d{d}"))) {
+                for e in rd.flatten() {
+                    let p = e.path();
+                    if p.extension().map(|x| x == "ui" || x == "h").unwrap_or(false) {
+                        let _ = std::fs::remove_file(p);
+                    }
+                }
+            }
+        }
+        let _ = std::process::Command::new(&bin)
+            .current_dir(dir.path())
+            .arg("generate-ui")
+            .arg("--foreign-types")
+            .arg(format!("{}/contrib/metatypes", env::REPO))
+            .args(order)
+            .stdin(std::process::Stdio::null())
+            .stdout(std::process::Stdio::null())
+            .stderr(std::process::Stdio::null())
+            .status();
+        let mut m = BTreeMap::new();
+        for d in 0..ndirs {
+            if let Ok(rd) = std::fs::read_dir(dir.path().join(format!("d{d}"))) {
+                for e in rd.flatten() {
+                    let p = e.path();
+                    if p.extension().map(|x| x == "ui" || x == "h").unwrap_or(false) {
+                        m.insert(format!("d{d}/{}", p.file_name().unwrap().to_string_lossy()), std::fs::read(&p).unwrap_or_default());
+                    }
+                }
+            }
+        }
+        m
+    };
+    // reference: each form alone
+    let mut reference: BTreeMap<String, Vec<u8>> = BTreeMap::new();
+    for f in &forms {
+        let m = run(std::slice::from_ref(f));
+        let stem = f.trim_end_matches(".qml").to_lowercase();
+        for (k, v) in m {
+            if k.trim_end_matches(".ui") == stem || k.ends_with(&format!("uisupport_{}.h", stem.rsplit('/').next().unwrap())) && k.starts_with(&stem[..2]) {
+                reference.insert(k, v);
+            }
+        }
+    }
+    let mut orders = vec![forms.clone()];
+    let mut rev = forms.clone();
+    rev.reverse();
+    orders.push(rev);
+    for _ in 0..2 {
+        let mut o = forms.clone();
+        rng.shuffle(&mut o);
+        orders.push(o);
+    }
+    for o in &orders {
+        let m = run(o);
+        if m != reference {
+            let differing: Vec<String> = reference
+                .keys()
+                .chain(m.keys())
+                .filter(|k| reference.get(*k) != m.get(*k))
+                .cloned()
+                .collect::<std::collections::BTreeSet<_>>()
+                .into_iter()
+                .collect();
+            return node(
+                "fail",
+                vec![st(format!("outputs of one invocation with sources [{}] differ from translating each source alone: {}", o.join(" "), differing.join(" ")))],
+            );
+        }
+    }
+    node("ok", vec![atom("forms"), num(forms.len()), atom("orders"), num(orders.len()), atom("outputs"), num(reference.len())])
+}
+
 const ROLES: &[&str] = &[
     "window", "windowText", "base", "alternateBase", "toolTipBase", "toolTipText", "text", "button", "buttonText", "brightText",
     "light", "midlight", "dark", "mid", "shadow", "highlight", "highlightedText", "link", "linkVisited",
@@ -94,7 +207,7 @@ fn subset<'a>(rng: &mut Rng, xs: &[&'a str], min: usize, max: usize) -> Vec<&'a 
 /// group, several handlers in a map, several attached properties, many anonymous objects of one class).
 pub fn multiplicity_document(rng: &mut Rng) -> (String, &'static str) {
     let mut s = String::from("import qmluic.QtWidgets\n\nQWidget {\n    id: root\n    QCheckBox { id: c1 }\n    QCheckBox { id: c2 }\n    QSpinBox { id: sp }\n    QLineEdit { id: ed }\n");
-    let which = rng.below(7);
+    let which = rng.below(8);
     let label = match which {
         0 => {
             // palette: default roles on the palette itself, colour groups overriding some of them and setting others
@@ -188,6 +301,21 @@ pub fn multiplicity_document(rng: &mut Rng) -> (String, &'static str) {
             }
             "anonymous-objects"
         }
+        6 => {
+            // every system header the support code can need, in one document: <algorithm> (Math.max/min), <cmath> (double %),
+            // <QtDebug> (console.*) — the include set is an unordered container too
+            s.push_str("    QDoubleSpinBox { id: ds }\n    QLabel {\n        id: inc\n");
+            let uses = [("indent", "Math.max(sp.value, 1)"), ("margin", "Math.min(sp.value, 9)"), ("toolTip", "\"%1\".arg(ds.value % 2.5)"), ("statusTip", "\"%1\".arg(ds.value % 0.5 + 1.0)")];
+            for (p, v) in subset_pairs(rng, &uses, 2, 4) {
+                s.push_str(&format!("        {p}: {v}\n"));
+            }
+            s.push_str("    }\n    QPushButton {\n        id: pb\n");
+            if rng.chance(2, 3) {
+                s.push_str(&format!("        onClicked: console.{}(\"clicked\", sp.value)\n", rng.pick(&["log", "debug", "info", "warn", "error"])));
+            }
+            s.push_str("    }\n");
+            "system-includes"
+        }
         _ => {
             // several item-model / string-list / brush / icon style values next to each other
             s.push_str("    QComboBox {\n        id: combo\n        model: [\"a\", \"b\", qsTr(\"c\")]\n        currentIndex: sp.value\n    }\n    QListWidget { id: lw }\n    QLabel {\n        id: misc\n");
@@ -226,6 +354,12 @@ impl Stream for C08 {
             ];
             cases.push(Case { kind: "oracle", labels, request: node("determinism", vec![st(root.to_qml())]) });
         }
+        // documents translated in ONE process in different orders: same-named components that differ per directory, so that
+        // anything remembered from an earlier document (caches keyed by names) would leak into a later one
+        let o = if thorough { 300 } else { 24 };
+        for k in 0..o {
+            cases.push(Case { kind: "oracle", labels: vec!["cross-document-order".into()], request: node("c08-order", vec![num(seed as usize % 1_000_000), num(k)]) });
+        }
         let m = if thorough { 6_000 } else { 500 };
         for k in 0..m {
             let mut rng = Rng::fork(seed, "c08-mult", k as u64);
@@ -236,7 +370,10 @@ impl Stream for C08 {
     }
 
     fn answer(&self, req: &Sexp) -> Sexp {
-        let (_, args) = req.as_node().expect("request node");
+        let (tag, args) = req.as_node().expect("request node");
+        if tag == "c08-order" {
+            return cross_document_order(args[0].as_usize().unwrap() as u64, args[1].as_usize().unwrap() as u64);
+        }
         let src = args[0].as_str().unwrap();
         let runs = 8;
         let mut total_diags = 0;
